@@ -259,6 +259,54 @@ def run_shadowed(_):
     return part.result()
 
 
+def run_dynamic_orders(_):
+    """the contexts inside the definition of a dynamic template whose announcement `dynamic D();` stands before, between or after
+    the functions they call: a dynamic template is the one construct with a forward declaration, so its body may call functions
+    that are declared after the announcement"""
+    part = engine.Part()
+    w = engine.worker("fast")
+    F1 = "int f1() { v = 1; return k; } int rd1() { return v + k; }\n"
+    F2 = "int f2() { return f1(); } int rd2() { return rd1(); }\nvoid wr(int &r) { r = 1; } int f4() { wr(v); return k; } int rd4() { int t = 0; wr(t); return t; }\n"
+    layouts = {"announcement-first": "dynamic D();\n" + F1 + F2, "announcement-between": F1 + "dynamic D();\n" + F2,
+               "announcement-last": F1 + F2 + "dynamic D();\n"}
+
+    def D(decl="", inv=None, guard=None, sync=None, assign=None):
+        return X.template("D", decl=decl, locations=[X.location("d0", "A", inv=inv), X.location("d1", "B")], init="d0",
+                          transitions=[X.transition("d0", "d1", guard=guard, sync=sync, assign=assign)])
+    ctxs = {"guard": lambda e: D(guard="%s == 1" % e), "invariant": lambda e: D(inv="%s >= 0" % e), "sync-index": lambda e: D(sync="c[%s]!" % e),
+            "local-initialiser": lambda e: D(decl="int q = %s;" % e), "forall-body": lambda e: D(guard="forall (i : int[0,1]) %s + i >= 0" % e),
+            "local-function-called-in-guard": lambda e: D(decl="int lf() { return %s; }" % e, guard="lf() == 1")}
+    main_t = X.template("T", locations=[X.location("id0", "L0")], init="id0")
+    docs, meta = [], []
+    for lid, g in layouts.items():
+        for cid, mk in ctxs.items():
+            for call, role in (("f1()", "write"), ("f2()", "write"), ("f4()", "write"), ("rd1()", "twin"), ("rd2()", "twin"), ("rd4()", "twin")):
+                if cid == "local-initialiser" and role == "twin":
+                    call = "k + 1"      # an initialiser must be computable at compile time: the twin reads constants only
+                for order in ("definition-first", "definition-last"):
+                    tpls = [mk(call), main_t] if order == "definition-first" else [main_t, mk(call)]
+                    docs.append(X.nta(GDECL + g, tpls, "system T;"))
+                    meta.append(("%s:%s:%s:%s" % (lid, cid, order, call), role))
+    res = X.run_docs(w, docs, want=["noinv"], batch=50)
+    for (key, role), doc, r in zip(meta, docs, res):
+        part.count()
+        rp = {"op": "xml", "buf": doc}
+        if engine.check_crash(part, PID, r, key, rp):
+            continue
+        part.nontrivial_case("dynamic-order:" + key)
+        acc = X.accepted(r)
+        if role == "write" and acc:
+            part.outcome("write-accepted")
+            part.violation("write-accepted:dynamic-template:" + key, "%s: a side-effect-free context inside the definition of a dynamic template "
+                           "calls a function that writes a global; the model is accepted" % key, rp)
+        elif role == "twin" and not acc:
+            part.outcome("twin-rejected")
+            part.violation("twin-rejected:dynamic-template:" + key, "%s: the read-only twin is rejected: %s" % (key, X.msgs(r)[:2]), rp)
+        else:
+            part.outcome("write-rejected" if role == "write" else "twin-accepted")
+    return part.result()
+
+
 def main():
     nforms = len(write_forms())
     rep = engine.Report(PID, "exploration",
@@ -268,11 +316,14 @@ def main():
                         "array element, struct field, inline-if/comma lvalues, writer calls and chains of depth 1-3, the write inside "
                         "13 statement forms, reference parameters; 13 target shapes x 4 operators inside functions with locals) - each cell with a "
                         "read-only twin and a local-only-writer control; the core forms additionally at %d positions inside the "
-                        "context's expression (operand, call argument, array index, inline-if condition/branch, ...)."
+                        "context's expression (operand, call argument, array index, inline-if condition/branch, ...). Declaration order: six contexts "
+                        "inside the definition of a dynamic template x its announcement before / between / after the called functions x "
+                        "{writer, call chain, reference-parameter wrapper} with read-only twins."
                         % (len(CONTEXTS) + len(QUERY_CONTEXTS), nforms, len(WRAPPERS)))
     for res in engine.pmap(run_shard, list(CONTEXTS) + list(QUERY_CONTEXTS)):
         rep.merge(res)
     rep.merge(run_shadowed(None))
+    rep.merge(run_dynamic_orders(None))
     rep.assumptions = ["in compile-time contexts the twin reads constants only (a read of a variable is rejected there for C13's reason)",
                        "small scope: call chains up to depth 3, one representative per statement form"]
     sys.exit(rep.finish())
